@@ -99,7 +99,15 @@ func validateUnconnectedProcessors(flow *FlowDirection) error {
 
 // detectCircularConnections detects circular connections in the flow graph.
 func detectCircularConnections(flowDir *FlowDirection) error {
-	if flowDir.GetFlowType().IsResponseType() && !flowDir.HasValidRoot() {
+	if flowDir.GetFlowType().IsResponseType() {
+		// a response walk can be entered at any processor (the one that answered the request
+		// itself), with or without a root: no processor may lead back to itself
+		for _, node := range flowDir.nodes {
+			visitedByCondition := make(map[string]map[string]bool)
+			if !dfsDetectCycles(node, visitedByCondition, node.processorKey, "") {
+				return fmt.Errorf("circular connection detected - processor '%s'", node.processorKey)
+			}
+		}
 		return nil
 	}
 
